@@ -502,3 +502,301 @@ Proof.
   { eapply WfUpd_cut; try eassumption. unfold fl. destruct (cut_before [] a2 u2); auto. }
   exact (update_roundtrip_pad_lemma o OO pad _ z _ _ _ WC WT R).
 Qed.
+
+(* ---------- prefer_truncation never raises TooBig (no padding) ---------- *)
+(* no emitter fails with TooBig of its own: that error only comes from the size check *)
+Lemma vl_loop_err : forall ls total i j e, vl_loop ls total i j = Lib e -> e = eLabelTooLong.
+Proof.
+  induction ls as [|l r IH]; intros total i j e H; cbn [vl_loop] in H; [discriminate|].
+  destruct (zlen l >? 63); [injection H as <-; reflexivity|]. eapply IH. exact H.
+Qed.
+
+Lemma mk_name_err n e : mk_name n = Lib e -> e <> eTooBig.
+Proof.
+  unfold mk_name, validate_labels. destruct (vl_loop n 0 None 0) as [[total i]| |] eqn:V.
+  - destruct (total >? 255); [intros H; injection H as <-; discriminate|].
+    destruct i as [k|]; [|discriminate]. destruct (Nat.eqb k (length n - 1)); [discriminate|].
+    intros H; injection H as <-; discriminate.
+  - apply vl_loop_err in V. subst. intros H; injection H as <-; discriminate.
+  - discriminate.
+Qed.
+
+Definition no_tb (E : emitter) : Prop := forall pos t, E pos t <> Lib eTooBig.
+
+Lemma no_tb_nm n o c : no_tb (nm_em n o c).
+Proof.
+  intros pos t H. unfold nm_em, full_labels in H.
+  destruct (is_absolute n).
+  - cbn [bind] in H. destruct (mk_name n) as [L| |] eqn:M; cbn [bind] in H; try discriminate.
+    injection H as ->. exact (mk_name_err _ _ M eq_refl).
+  - destruct o as [org|]; [|cbn [bind] in H; discriminate].
+    destruct (is_absolute org); [|cbn [bind] in H; discriminate]. cbn [bind] in H.
+    destruct (mk_name (n ++ org)) as [L| |] eqn:M; cbn [bind] in H; try discriminate.
+    injection H as ->. exact (mk_name_err _ _ M eq_refl).
+Qed.
+
+Lemma pack16_no_lib v e : pack16 v <> Lib e.
+Proof. unfold pack16. destruct (_ && _); discriminate. Qed.
+Lemma pack32_no_lib v e : pack32 v <> Lib e.
+Proof. unfold pack32. destruct (_ && _); discriminate. Qed.
+
+Lemma no_tb_rd : forall ps o c, no_tb (rd_em ps o c).
+Proof.
+  induction ps as [|p r IH]; intros o c pos t H; [discriminate|].
+  destruct p as [b|n|n|n]; cbn [rd_em] in H.
+  - destruct (rd_em r o c (pos + zlen b) t) as [[e2 t2]| |] eqn:E; cbn [bind] in H; try discriminate.
+    injection H as ->. exact (IH _ _ _ _ E).
+  - destruct (nm_em n o c pos t) as [[e1 t1]| |] eqn:E1; cbn [bind fst snd] in H; try discriminate.
+    + destruct (rd_em r o c (pos + zlen e1) t1) as [[e2 t2]| |] eqn:E; cbn [bind] in H; try discriminate.
+      injection H as ->. exact (IH _ _ _ _ E).
+    + injection H as ->. exact (no_tb_nm _ _ _ _ _ E1).
+  - destruct (nm_em n o false pos t) as [[e1 t1]| |] eqn:E1; cbn [bind fst snd] in H; try discriminate.
+    + destruct (rd_em r o c (pos + zlen e1) t1) as [[e2 t2]| |] eqn:E; cbn [bind] in H; try discriminate.
+      injection H as ->. exact (IH _ _ _ _ E).
+    + injection H as ->. exact (no_tb_nm _ _ _ _ _ E1).
+  - destruct (nm_em n o false pos t) as [[e1 t1]| |] eqn:E1; cbn [bind fst snd] in H; try discriminate.
+    + destruct (rd_em r o c (pos + zlen e1) t1) as [[e2 t2]| |] eqn:E; cbn [bind] in H; try discriminate.
+      injection H as ->. exact (IH _ _ _ _ E).
+    + injection H as ->. exact (no_tb_nm _ _ _ _ _ E1).
+Qed.
+
+Lemma no_tb_rr owner ty cl ttl rd oo ro oc rc : no_tb (rr_em owner ty cl ttl rd oo ro oc rc).
+Proof.
+  intros pos t H. unfold rr_em in H.
+  destruct (nm_em owner oo oc pos t) as [[e1 t1]| |] eqn:E1; cbn [bind fst snd] in H; try discriminate.
+  2:{ injection H as ->. exact (no_tb_nm _ _ _ _ _ E1). }
+  destruct (pack16 ty) as [h1| |] eqn:P1; cbn [bind] in H; try discriminate; [|exfalso; exact (pack16_no_lib _ _ P1)].
+  destruct (pack16 cl) as [h2| |] eqn:P2; cbn [bind] in H; try discriminate; [|exfalso; exact (pack16_no_lib _ _ P2)].
+  destruct (pack32 ttl) as [h3| |] eqn:P3; cbn [bind] in H; try discriminate; [|exfalso; exact (pack32_no_lib _ _ P3)].
+  destruct (rd_em rd ro rc (pos + zlen e1 + 10) t1) as [[e2 t2]| |] eqn:E2; cbn [bind fst snd] in H; try discriminate.
+  - destruct (zlen e2 >? 65535); discriminate.
+  - injection H as ->. exact (no_tb_rd _ _ _ _ _ E2).
+Qed.
+
+Lemma no_tb_rrs : forall rds owner ty cl ttl o c, no_tb (rrs_em owner ty cl ttl rds o c).
+Proof.
+  induction rds as [|rd r IH]; intros owner ty cl ttl o c pos t H; [discriminate|].
+  cbn [rrs_em] in H.
+  destruct (rr_em owner ty cl ttl rd o o c c pos t) as [[e1 t1]| |] eqn:E1; cbn [bind fst snd] in H; try discriminate.
+  - destruct (rrs_em owner ty cl ttl r o c (pos + zlen e1) t1) as [[e2 t2]| |] eqn:E; cbn [bind] in H; try discriminate.
+    injection H as ->. exact (IH _ _ _ _ _ _ _ _ E).
+  - injection H as ->. exact (no_tb_rr _ _ _ _ _ _ _ _ _ _ _ E1).
+Qed.
+
+Lemma no_tb_rrset rs o c : no_tb (rrset_em rs o c).
+Proof. unfold rrset_em. intros pos t H. destruct (rrds rs); [exact (no_tb_rr _ _ _ _ _ _ _ _ _ _ _ H)|exact (no_tb_rrs _ _ _ _ _ _ _ _ _ H)]. Qed.
+
+Lemma tracked_no_tb E sec n r : no_tb E -> tracked E sec n r <> Lib eTooBig.
+Proof.
+  intros X H. unfold tracked in H. unfold set_section in H.
+  destruct (rsec r =? sec); cbn [bind] in H.
+  - destruct (E (zlen (out r)) (tbl r)) as [[em t']| |] eqn:EE; cbn [bind fst snd] in H; try discriminate.
+    + destruct (track_end _ _) as [big r2]. destruct big; discriminate.
+    + injection H as ->. exact (X _ _ EE).
+  - destruct (rsec r >? sec); cbn [bind] in H; [discriminate|].
+    cbn [out tbl set_rsec] in H.
+    destruct (E (zlen (out r)) (tbl r)) as [[em t']| |] eqn:EE; cbn [bind fst snd] in H; try discriminate.
+    + destruct (track_end _ _) as [big r2]. destruct big; discriminate.
+    + injection H as ->. exact (X _ _ EE).
+Qed.
+
+Lemma write_header_no_lib id r e : write_header id r <> Lib e.
+Proof.
+  unfold write_header. intros H.
+  destruct (pack16 id) eqn:P0; cbn [bind] in H; try discriminate; [|exact (pack16_no_lib _ _ P0)].
+  destruct (pack16 (rflags r)) eqn:P1; cbn [bind] in H; try discriminate; [|exact (pack16_no_lib _ _ P1)].
+  destruct (pack16 (cq r)) eqn:P2; cbn [bind] in H; try discriminate; [|exact (pack16_no_lib _ _ P2)].
+  destruct (pack16 (can r)) eqn:P3; cbn [bind] in H; try discriminate; [|exact (pack16_no_lib _ _ P3)].
+  destruct (pack16 (cau r)) eqn:P4; cbn [bind] in H; try discriminate; [|exact (pack16_no_lib _ _ P4)].
+  destruct (pack16 (cad r)) eqn:P5; cbn [bind] in H; try discriminate. exact (pack16_no_lib _ _ P5).
+Qed.
+
+Lemma reserve_no_lib size r e : reserve size r <> Lib e.
+Proof. unfold reserve. destruct (size <? 0); [discriminate|]. destruct (size >? maxsz r); discriminate. Qed.
+
+Lemma no_tb_q o n ty cl : no_tb (q_em o n ty cl).
+Proof.
+  intros pos t H. unfold q_em in H.
+  destruct (nm_em n o true pos t) as [[e1 t1]| |] eqn:E1; cbn [bind fst snd] in H; try discriminate.
+  2:{ injection H as ->. exact (no_tb_nm _ _ _ _ _ E1). }
+  destruct (pack16 ty) eqn:P1; cbn [bind] in H; try discriminate; [|exact (pack16_no_lib _ _ P1)].
+  destruct (pack16 cl) eqn:P2; cbn [bind] in H; try discriminate. exact (pack16_no_lib _ _ P2).
+Qed.
+
+Lemma add_questions_no_tb o : forall l r, add_questions o l r <> Lib eTooBig.
+Proof.
+  induction l as [|rs l IH]; intros r H; [discriminate|]. cbn [add_questions] in H.
+  rewrite add_question_tracked in H.
+  destruct (tracked _ _ _ r) as [[b1 r1]| |] eqn:T; cbn [bind fst snd] in H; try discriminate.
+  - destruct b1; [discriminate|]. exact (IH _ H).
+  - injection H as ->. exact (tracked_no_tb _ _ _ _ (no_tb_q _ _ _ _) T).
+Qed.
+
+Lemma add_rrsets_no_tb o sec : forall l r, add_rrsets o sec l r <> Lib eTooBig.
+Proof.
+  induction l as [|rs l IH]; intros r H; [discriminate|]. cbn [add_rrsets] in H.
+  rewrite add_rrset_tracked in H.
+  destruct (tracked _ _ _ r) as [[b1 r1]| |] eqn:T; cbn [bind fst snd] in H; try discriminate.
+  - destruct b1; [discriminate|]. exact (IH _ H).
+  - injection H as ->. exact (tracked_no_tb _ _ _ _ (no_tb_rrset _ _ _) T).
+Qed.
+
+Lemma opts_wire_no_lib : forall os e, opts_wire os <> Lib e.
+Proof.
+  induction os as [|[c d] os IH]; intros e H; [discriminate|]. cbn [opts_wire] in H.
+  destruct (pack16 c) eqn:P1; cbn [bind] in H; try discriminate; [|exact (pack16_no_lib _ _ P1)].
+  destruct (pack16 (zlen d)) eqn:P2; cbn [bind] in H; try discriminate; [|exact (pack16_no_lib _ _ P2)].
+  destruct (opts_wire os) eqn:O; cbn [bind] in H; try discriminate. injection H as ->. exact (IH _ eq_refl).
+Qed.
+
+Lemma wire_labels_pos (n : name) : n <> [] -> 1 <= zlen (wire_labels false n).
+Proof. destruct n as [|l r]; [congruence|]. intros _. rewrite wire_labels_cons, zlen_cons'. pose proof (zlen_nn (l ++ wire_labels false r)). lia. Qed.
+
+(* compression never makes a name longer: a pointer (2 octets) only replaces a suffix of at least two labels *)
+Lemma tw_em_le : forall L pos t, KeysLong t -> zlen (fst (tw_em L pos t)) <= zlen (wire_labels false L).
+Proof.
+  induction L as [|l r IH]; intros pos t KL; [cbn; lia|].
+  cbn [tw_em]. destruct (tbl_get t (l :: r)) as [p|] eqn:E.
+  - cbn [fst]. change (zlen (NameM.u16 (49152 + p))) with 2.
+    destruct (tbl_get_some _ _ _ E) as (k & I & Eq). apply name_eqb_iff_ci in Eq. apply ci_equal_length in Eq.
+    unfold KeysLong in KL. rewrite Forall_forall in KL. specialize (KL _ I). cbn [fst] in KL.
+    assert (r <> []). { intros ->. unfold zlen in KL. cbn [length] in *. lia. }
+    rewrite wire_labels_cons, zlen_cons', zlen_app'. pose proof (wire_labels_pos r H). pose proof (zlen_nn l). lia.
+  - cbn [fst].
+    assert (KL' : KeysLong (if (1 <? zlen (l :: r)) && (pos <=? 16383) then t ++ [(l :: r, pos)] else t)).
+    { destruct (Z.ltb_spec 1 (zlen (l :: r))); cbn [andb]; [|exact KL]. destruct (pos <=? 16383); [|exact KL].
+      apply Forall_app. split; [exact KL|]. constructor; [cbn [fst]; exact H|constructor]. }
+    pose proof (IH (pos + 1 + zlen l) _ KL') as IH'.
+    rewrite wire_labels_cons. rewrite (zlen_cons' (zlen l)), (zlen_cons' (zlen l) (l ++ wire_labels false r)), !zlen_app'. apply Zplus_le_compat_l. apply Zplus_le_compat_l. exact IH'.
+Qed.
+
+Lemma rr_em_compress_le kn ty cl ttl rd o pos t em t' et :
+  KeysLong t -> is_absolute kn = true ->
+  rr_em kn ty cl ttl rd o None true false pos t = Ok (em, t') ->
+  rr_em kn ty cl ttl rd None None false false 0 [] = Ok (et, []) ->
+  zlen em <= zlen et.
+Proof.
+  intros KL A H H0.
+  destruct (rr_em_split _ _ _ _ _ _ _ _ _ _ _ _ _ H) as (e1 & t1 & e2 & N1 & D1 & _ & _ & _ & _ & ->).
+  destruct (rr_em_split _ _ _ _ _ _ _ _ _ _ _ _ _ H0) as (f1 & u1 & f2 & M1 & M2 & _ & _ & _ & _ & ->).
+  destruct (rd_em_nc _ _ _ _ _ _ D1) as (_ & NC). rewrite NC in M2. injection M2 as <- _.
+  unfold nm_em in N1, M1. rewrite (full_labels_abs_origin kn o A) in N1.
+  destruct (full_labels kn None) as [L| |]; cbn [bind] in *; try discriminate.
+  injection N1 as N1. injection M1 as <- _.
+  assert (E1 : e1 = fst (tw_em L pos t)) by (rewrite N1; reflexivity). subst e1.
+  rewrite !zlen_app'. pose proof (tw_em_le L pos t KL). lia.
+Qed.
+
+Theorem trunc_no_toobig_lemma m o ms rp tr :
+  compute_tsig_reserve m = Ok tr ->
+  compute_opt_reserve m 0 + tr + 12 <= eff_limit ms rp ->
+  to_wire m o ms rp true 0 <> Lib eTooBig.
+Proof.
+  intros TR0 HR0 H. pose proof (eff_limit_range ms rp) as He. set (e := eff_limit ms rp) in *.
+  unfold to_wire in H. destruct (to_wire_st m o ms rp true 0) as [r| |] eqn:HS; cbn [bind] in H; try discriminate.
+  injection H as ->.
+  unfold to_wire_st in HS. fold e in HS.
+  set (r0 := mkRst (repeat 0 12) [] 0 0 0 0 0 (mflags m) e 0 false) in *.
+  set (ores := compute_opt_reserve m 0) in *.
+  destruct (reserve ores r0) as [r1| |] eqn:R1; cbn [bind] in HS; [|exfalso; exact (reserve_no_lib _ _ _ R1)|discriminate].
+  rewrite TR0 in HS. cbn [bind] in HS.
+  destruct (reserve tr r1) as [r2| |] eqn:R2; cbn [bind] in HS; [|exfalso; exact (reserve_no_lib _ _ _ R2)|discriminate].
+  destruct (reserve_le _ _ _ R1) as (B1 & M1). destruct (reserve_le _ _ _ R2) as (B2 & M2). cbn [maxsz r0] in B1, M1.
+  apply reserve_spec in R1. destruct R1 as (O1 & T1 & L1 & V1 & _).
+  apply reserve_spec in R2. destruct R2 as (O2 & T2 & L2 & V2 & _).
+  assert (I2 : SInv e r2).
+  { unfold SInv, TblBelow. rewrite O2, O1, T2, T1. cbn [out tbl r0 maxsz reserved] in *.
+    change (zlen (repeat 0 12)) with 12. repeat split; try lia. constructor. }
+  assert (K2 : KeysLong (tbl r2)) by (rewrite T2, T1; constructor).
+  destruct (add_questions o (mq m) r2) as [[b1 s1]| |] eqn:S1; cbn [bind fst snd] in HS;
+    [|exfalso; injection HS as ->; exact (add_questions_no_tb _ _ _ S1)|discriminate].
+  destruct (add_questions_SInv _ _ _ _ _ _ I2 S1) as (J1 & X1 & _).
+  pose proof (add_questions_KL _ _ _ _ _ _ I2 K2 S1) as KL1.
+  destruct (if b1 then Ok (b1, s1) else add_rrsets o 1 (man m) s1) as [[b2 s2]| |] eqn:S2; cbn [bind fst snd] in HS;
+    [|exfalso; injection HS as ->; destruct b1; [discriminate|exact (add_rrsets_no_tb _ _ _ _ S2)]|discriminate].
+  assert (J2 : SInv e s2 /\ KeysLong (tbl s2) /\ maxsz s2 = maxsz r2).
+  { destruct b1; [inversion S2; subst; auto|]. cbv iota in S2.
+    destruct (add_rrsets_SInv _ _ _ _ _ _ _ J1 S2) as (A & B & _). split; [exact A|]. split; [exact (add_rrsets_KL _ _ _ _ _ _ _ J1 KL1 S2)|congruence]. }
+  destruct J2 as (J2 & KL2 & X2).
+  destruct (if b2 then Ok (b2, s2) else add_rrsets o 2 (mau m) s2) as [[b3 s3]| |] eqn:S3; cbn [bind fst snd] in HS;
+    [|exfalso; injection HS as ->; destruct b2; [discriminate|exact (add_rrsets_no_tb _ _ _ _ S3)]|discriminate].
+  assert (J3 : SInv e s3 /\ KeysLong (tbl s3) /\ maxsz s3 = maxsz r2).
+  { destruct b2; [inversion S3; subst; auto|]. cbv iota in S3.
+    destruct (add_rrsets_SInv _ _ _ _ _ _ _ J2 S3) as (A & B & _). split; [exact A|]. split; [exact (add_rrsets_KL _ _ _ _ _ _ _ J2 KL2 S3)|congruence]. }
+  destruct J3 as (J3 & KL3 & X3).
+  destruct (if b3 then Ok (b3, s3) else add_rrsets o 3 (mad m) s3) as [[b4 s4]| |] eqn:S4; cbn [bind fst snd] in HS;
+    [|exfalso; injection HS as ->; destruct b3; [discriminate|exact (add_rrsets_no_tb _ _ _ _ S4)]|discriminate].
+  assert (J4 : SInv e s4 /\ KeysLong (tbl s4) /\ maxsz s4 = maxsz r2).
+  { destruct b3; [inversion S4; subst; auto|]. cbv iota in S4.
+    destruct (add_rrsets_SInv _ _ _ _ _ _ _ J3 S4) as (A & B & _). split; [exact A|]. split; [exact (add_rrsets_KL _ _ _ _ _ _ _ J3 KL3 S4)|congruence]. }
+  destruct J4 as (J4 & KL4 & X4).
+  set (r3 := if b4 then (if rsec s4 <? 3 then set_rflags s4 (Z.lor (rflags s4) fTC) else s4) else s4) in *.
+  assert (HS' : (do r5 <- match mopt m with
+                          | Some o0 => do br <- add_opt o o0 0 ores tr (release_reserved r3); raise_if_big br
+                          | None => Ok (release_reserved r3) end;
+                 do r6 <- write_header (mid m) r5;
+                 match mtsig m with
+                 | Some (kn, rd) => do br <- write_tsig o kn rd r6; do r7 <- raise_if_big br; write_header (mid m) r7
+                 | None => Ok r6 end) = Lib eTooBig).
+  { destruct b4; exact HS. }
+  clear HS.
+  assert (J5 : SInv e r3 /\ KeysLong (tbl r3) /\ maxsz r3 = maxsz r2).
+  { unfold r3. destruct b4; [destruct (rsec s4 <? 3)|]; auto. }
+  destruct J5 as ((K1 & K2' & K3 & K4 & K5) & KL5 & X5).
+  set (r4 := release_reserved r3) in *.
+  assert (F4 : zlen (out r4) + ores + tr <= e /\ maxsz r4 = e /\ TblBelow r4 /\ KeysLong (tbl r4) /\ padded r4 = padded r3 /\ 12 <= zlen (out r4)).
+  { unfold r4, release_reserved. cbn [out tbl maxsz padded set_limits]. rewrite X5, M2, M1 in K2'. split; [lia|]. split; [lia|]. auto. }
+  destruct F4 as (F4 & MX4 & TB4 & KL4' & P4 & H124).
+  (* the OPT record fits *)
+  assert (F5 : (exists r5, match mopt m with
+                          | Some o0 => do br <- add_opt o o0 0 ores tr r4; raise_if_big br
+                          | None => Ok r4 end = Ok r5 /\
+                          zlen (out r5) + tr <= e /\ maxsz r5 = e /\ TblBelow r5 /\ KeysLong (tbl r5) /\ padded r5 = padded r3 /\ 12 <= zlen (out r5))
+               \/ exists x, match mopt m with
+                          | Some o0 => do br <- add_opt o o0 0 ores tr r4; raise_if_big br
+                          | None => Ok r4 end = x /\ x <> Lib eTooBig /\ (forall r5, x <> Ok r5)).
+  { destruct (mopt m) as [oo|] eqn:EO.
+    - destruct (add_opt o oo 0 ores tr r4) as [[b5 s5]| |] eqn:A5; cbn [bind].
+      + unfold add_opt in A5. cbn [Z.eqb] in A5. apply bind_ok in A5. destruct A5 as (rs & HRS & A5).
+        rewrite add_rrset_tracked in A5.
+        destruct (tracked_spec _ _ _ _ _ _ (ext_rrset_em _ _ _) TB4 A5) as (_ & emo & new & HE & FN & [(-> & Hfit & ->)|(-> & Hbig & ->)]).
+        * left. eexists. split; [reflexivity|]. cbn [fst snd raise_if_big out tbl maxsz padded inc_count set_out set_rsec].
+          pose proof (opt_em_len _ _ _ _ _ _ _ KL4' HRS HE) as Lo.
+          assert (ores = zlen emo). { unfold ores. rewrite opt_reserve0, EO. lia. }
+          rewrite zlen_app'. split; [lia|]. split; [exact MX4|]. split; [apply TblBelow_step; assumption|].
+          split; [|split; [exact P4|pose proof (zlen_nn emo); lia]].
+          apply Forall_app. split; [exact KL4'|]. eapply Forall_impl; [|exact FN]. cbn beta. intros kv (_ & Hk). exact Hk.
+        * exfalso. pose proof (opt_em_len _ _ _ _ _ _ _ KL4' HRS HE) as Lo.
+          assert (ores = zlen emo). { unfold ores. rewrite opt_reserve0, EO. lia. } lia.
+      + right. eexists. split; [reflexivity|]. split; [|discriminate].
+        intros HX. injection HX as ->. unfold add_opt in A5. cbn [Z.eqb] in A5.
+        destruct (opt_rrset oo) as [rs| |] eqn:HRS; cbn [bind] in A5; try discriminate.
+        * rewrite add_rrset_tracked in A5. exact (tracked_no_tb _ _ _ _ (no_tb_rrset _ _ _) A5).
+        * unfold opt_rrset in HRS. destruct (opts_wire (oopts oo)) eqn:OW; cbn [bind] in HRS; try discriminate.
+          injection HRS as ->. injection A5 as ->. exact (opts_wire_no_lib _ _ OW).
+      + right. eexists. split; [reflexivity|]. split; discriminate.
+    - left. exists r4. split; [reflexivity|]. repeat split; try assumption. lia. }
+  destruct F5 as [(r5 & E5 & F5 & MX5 & TB5 & KL5' & P5 & H125)|(x & E5 & NX & NOk)].
+  2:{ rewrite E5 in HS'. destruct x as [r5| |]; [exfalso; eapply NOk; reflexivity|cbn [bind] in HS'; congruence|cbn [bind] in HS'; discriminate]. }
+  rewrite E5 in HS'. cbn [bind] in HS'.
+  destruct (write_header (mid m) r5) as [r6| |] eqn:R6; cbn [bind] in HS';
+    [|exact (write_header_no_lib _ _ _ R6)|discriminate].
+  destruct (write_header_spec _ _ _ H125 R6) as (A6 & B6 & C6 & D6 & P6 & _).
+  destruct (mtsig m) as [[kn rd]|] eqn:ET; [|discriminate].
+  rewrite write_tsig_eq in HS'.
+  destruct (tsig_reserve_spec m kn rd tr ET TR0) as (Akn & et0 & HE0 & ->).
+  destruct (tracked (rr_em kn tTSIG cANY 0 rd o None (negb (padded r6)) false) 3 1 r6) as [[b8 s8]| |] eqn:A8;
+    cbn [bind fst snd] in HS'; [|injection HS' as ->; exact (tracked_no_tb _ _ _ _ (no_tb_rr _ _ _ _ _ _ _ _ _) A8)|discriminate].
+  assert (TB6 : TblBelow r6) by (unfold TblBelow in *; rewrite A6, B6; exact TB5).
+  destruct (tracked_spec _ _ _ _ _ _ (ext_rr_em _ _ _ _ _ _ _ _ _) TB6 A8) as (_ & emt & new & HE & _ & [(-> & _ & ->)|(-> & Hbig & ->)]).
+  - (* it fitted: what follows is the count patch and the header *)
+    destruct (pack16 _) eqn:PC; cbn [bind] in HS'; try discriminate; [|exact (pack16_no_lib _ _ PC)].
+    unfold raise_if_big in HS'. cbn [fst snd bind] in HS'.
+    match type of HS' with write_header ?i ?x = _ => exact (write_header_no_lib i x _ HS') end.
+  - (* written with compression it is at most its reserved, uncompressed size *)
+    assert (LE : zlen emt <= zlen et0).
+    { rewrite B6 in HE. destruct (padded r6).
+      - cbn [negb] in HE. pose proof (rr_em_nc _ _ _ _ _ _ _ _ _ _ HE Akn) as HE'. rewrite HE0 in HE'. injection HE' as <-. lia.
+      - cbn [negb] in HE. exact (rr_em_compress_le _ _ _ _ _ _ _ _ _ _ _ KL5' Akn HE HE0). }
+    lia.
+Qed.
